@@ -24,10 +24,11 @@ BWD = "include/crab/analysis/bwd_analyzer.hpp"
 BAO = "include/crab/domains/backward_assign_operations.hpp"
 NPT = "crab::analyzer::intra_necessary_preconditions_abs_transformer"
 
-NO_BACKWARD_REGION = "abstract_domain_api has no backward operations for region/reference statements (documented in abstract_domain.hpp)"
-EXEMPT = {k: NO_BACKWARD_REGION for k in (
-    "region_init_stmt", "region_copy_stmt", "region_cast_stmt", "make_ref_stmt", "remove_ref_stmt", "load_from_ref_stmt",
-    "store_to_ref_stmt", "gep_ref_stmt", "assume_ref_stmt", "assert_ref_stmt", "ref_select_stmt", "int_to_ref_stmt", "ref_to_int_stmt")}
+# (round 0 exempted all thirteen region / reference statement kinds here because the domain API has no backward region
+# operations.  That exemption hid finding F16: an empty exec() for a statement that DEFINES a variable is unsound.  Only the kinds
+# that define nothing remain exempt; assert_ref is decided by C11.r2.)
+EXEMPT = {"remove_ref_stmt": "defines no variable", "assume_ref_stmt": "defines no variable; ignoring an assumption enlarges the precondition",
+          "assert_ref_stmt": "defines no variable; error states decided by C11.r2"}
 EXEMPT["intrinsic_stmt"] = "semantics of an intrinsic is domain-defined"
 
 
